@@ -139,6 +139,7 @@ func ruleBounds(c *Ctx, r *Report) {
 	for _, s := range all {
 		has[short(s.f)+"|"+s.what+"|"+normSiteShape(s.ins)] = true
 	}
+	recut := map[string]int{}
 	unitOf := map[*ssa.Function]map[*ssa.Function]bool{}
 	inUnit := func(owner, g *ssa.Function) bool {
 		m, ok := unitOf[owner]
@@ -214,6 +215,34 @@ func ruleBounds(c *Ctx, r *Report) {
 				nMoved++
 				used[rk] = true
 				r.OKTrivial("bounds-reviewed", key, pos, "moved from "+parts[0]+": "+rv.Verdict+": "+rv.Reason)
+			}
+		}
+		if !moved {
+			// a complete re-cut: the site sits in a function literal / private helper of a reviewed
+			// function ALL of whose reviewed sites of this kind are gone from it (the reviewed slicing
+			// was rewritten in another form, e.g. a cursor closure). At most as many new sites are
+			// accepted as reviewed ones vanished.
+			for owner := s.f.Parent(); owner != nil && !moved; owner = owner.Parent() {
+				on := short(owner)
+				total, gone := 0, 0
+				var sample reviewedSite
+				for rk, es := range reviewed {
+					parts := strings.SplitN(rk, "|", 3)
+					if len(parts) != 3 || parts[0] != on || parts[1] != s.what {
+						continue
+					}
+					total += len(es)
+					if !has[rk] {
+						gone += len(es)
+						sample = es[0]
+					}
+				}
+				if total > 0 && gone == total && recut[on+"|"+s.what] < gone {
+					recut[on+"|"+s.what]++
+					moved = true
+					nMoved++
+					r.OKTrivial("bounds-reviewed", key, pos, "re-cut of the reviewed "+s.what+" sites of "+on+" (all "+fmt.Sprint(total)+" are gone from it): "+sample.Verdict+": "+sample.Reason)
+				}
 			}
 		}
 		if moved {
